@@ -169,7 +169,10 @@ pub fn impl_answer(case: &Case) -> String {
                         problem = "empty-error-list".into();
                     }
                     for e in &errs.errors {
-                        let text = e.to_string();
+                        let text = match quietly(|| catch_unwind(AssertUnwindSafe(|| e.to_string()))) {
+                            Ok(t) => t,
+                            Err(_) => return "(panic)".to_string(),
+                        };
                         if text.trim().is_empty() {
                             problem = "empty-error-text".into();
                         }
@@ -184,8 +187,10 @@ pub fn impl_answer(case: &Case) -> String {
                             }
                         }
                     }
-                    if errs.to_string().trim().is_empty() {
-                        problem = "empty-rendering".into();
+                    match quietly(|| catch_unwind(AssertUnwindSafe(|| errs.to_string()))) {
+                        Ok(t) if t.trim().is_empty() => problem = "empty-rendering".into(),
+                        Ok(_) => {}
+                        Err(_) => return "(panic)".to_string(),
                     }
                     if slow {
                         problem = "slow".into();
